@@ -2,6 +2,8 @@ mod a2mlgen;
 mod c01;
 mod c03;
 mod c13;
+mod c15;
+mod c16;
 mod c17;
 mod gen;
 mod gentool;
@@ -14,7 +16,7 @@ mod tape;
 use runner::{CheckSpec, ScenarioPlan, Tier};
 
 fn all_checks() -> Vec<CheckSpec> {
-    vec![c01_spec(), c03_spec(), c13_spec(), c17_spec()]
+    vec![c01_spec(), c03_spec(), c13_spec(), c15_spec(), c16_spec(), c17_spec()]
 }
 
 fn c01_spec() -> CheckSpec {
@@ -53,6 +55,43 @@ fn c03_spec() -> CheckSpec {
         plans: vec![
             ScenarioPlan { scenario: Box::new(c03::C03Enumerate), quick_runs: 320, thorough_runs: 3_000 },
             ScenarioPlan { scenario: Box::new(c03::C03RandomFaults), quick_runs: 30_000, thorough_runs: 1_500_000 },
+        ],
+    }
+}
+
+fn c15_spec() -> CheckSpec {
+    CheckSpec {
+        property: "C15",
+        level: "exploration",
+        rule: "a model loaded from a file with 0..300 MODULE-level elements of up to 20 kinds in arbitrary order (optional comments, IF_DATA, MOD_COMMON), then a seeded history of up to 60 (thorough: 400) operations over {push new element of kind K (all 20 list kinds), merge a small module with fresh names, sort_new_items (runs of 1..64 consecutive calls drawn on purpose), write to the simulated FS, write + reload}. After every operation the output text is scanned by an independent scanner for the MODULE-level (kind, name) sequence and compared with an order model: placed elements never change relative order; after sort_new_items each pending element whose kind has a placed member stands after the last placed element of its kind and before the placed element that followed it, others stay at the end; nothing is lost or duplicated; no panic or arithmetic overflow. evaluations = library calls. Non-trivial: at least one sort_new_items placed a pending element. Distinct: (size bucket, kinds, longest consecutive-sort run bucket, effective sorts, merges, pending kinds).",
+        assumptions: vec![
+            "history dimension only: nothing here is nondeterministic and no fault is involved; the write/reload steps go through the VFS but no oracle depends on that",
+            "the mutual order of elements inserted by the same call, and of pending elements at the end, is not constrained (the property does not state it)",
+            "only the 20 name-indexed list kinds are pushed; optional singletons (A2ML, MOD_COMMON, MOD_PAR, VARIANT_CODING) and unnamed IF_DATA / USER_RIGHTS are not asserted on",
+        ],
+        real_components: vec!["a2lfile: sort_new_items, merge_modules, writer ordering (Writer::sort_function), load/write"],
+        stubbed_components: vec!["file system (in-memory VFS, used by the write steps only)"],
+        expected_probes: vec![">=16-consecutive-sort_new_items"],
+        plans: vec![ScenarioPlan { scenario: Box::new(c15::C15Histories), quick_runs: 4_000, thorough_runs: 120_000 }],
+    }
+}
+
+fn c16_spec() -> CheckSpec {
+    CheckSpec {
+        property: "C16",
+        level: "fault_enumeration",
+        rule: "a generated document is split at element boundaries (top level, inside MODULE, inside elements with sub-elements) into a main file plus 1..6 include files nested up to 3 deep in sub-/parent directories of the simulated file system; per directive quoted/unquoted name, / or \\ separators, includer-relative or absolute path, optional decoy at the CWD-relative location, optional A2ML-level include, empty and comment-only include files, include files in another encoding. Oracles T1 load(main) == load_from_string(flattened text), T2 write + reload from the same directory gives an equal model and leaves include files untouched, T3 merge_includes() output is self-contained and equal, T4 cyclic includes are reported as errors. Then the fault-free load's file-system call sequence is recorded and re-run once for every (call, applicable fault kind) pair: benign faults must not change the result, hard faults must give the error that names the file / directive. evaluations = library calls. Non-trivial: at least one element came from an included file. Distinct: (depth, number of includes, name syntaxes, A2ML include, strictness, lexical features) and (fault kind, call kind / file role).",
+        assumptions: vec![
+            "splits are made only between complete tagged items of one parent; no file is included twice",
+            "the CWD-relative legacy fallback is neither required nor forbidden: exists:false-neg is not injected when a decoy could be picked up",
+            "diagnostics are compared by class, not by file name or line",
+        ],
+        real_components: vec!["a2lfile: tokenizer (include resolution), loader (make_include_filename, load, decoding), a2ml tokenizer (A2ML-level include), parser, writer, merge_includes", "std Read::read_to_end"],
+        stubbed_components: vec!["file system (in-memory VFS with directories, CWD, fault plan, call trace)", "OS randomness feeding std RandomState"],
+        expected_probes: vec!["include-resolved-at-depth>=2", "EINTR-retried", "empty-include-file", "decoy-at-cwd-relative-location"],
+        plans: vec![
+            ScenarioPlan { scenario: Box::new(c16::C16Includes), quick_runs: 6_000, thorough_runs: 200_000 },
+            ScenarioPlan { scenario: Box::new(c16::C16Cycles), quick_runs: 64, thorough_runs: 512 },
         ],
     }
 }
@@ -110,6 +149,7 @@ fn main() {
         Some("replay") => runner::replay_file(args.get(2).map_or("", String::as_str), &all_checks()),
         Some("gen") => gentool::run(&args[2..]),
         Some("rt") => gentool::roundtrip(&args[2..]),
+        Some("rtfile") => gentool::roundtrip_file(&args[2..]),
         Some("selftest") => match hashseed::selftest() {
             Ok(()) => {
                 println!("hash seam self-test ok");
